@@ -27,6 +27,19 @@ def _sample(job):
     theta = theta_for(fam, tau)
     m = O.make(fam, theta)
     m.tau = tau
+    if seed % 2 and n > 0:
+        # every second model is parameterised the library's way, tau -> theta (a mirror model with the opposite tau went first)
+        try:
+            import copulas.bivariate as cb
+            if fam == 'Frank':
+                mirror = cb.Frank()
+                mirror.tau = -tau
+                mirror.theta = mirror.compute_theta()
+            th = float(m.compute_theta())
+            if np.isfinite(th):
+                m.theta = th
+        except Exception:
+            pass
     m.set_random_state(seed)
     rec = {'fam': fam, 'tau': tau, 'seed': seed, 'n': n, 'err': '', 'exact': [], 'stats': {}}
     try:
